@@ -126,14 +126,19 @@ WaitingTasks == {k \in Tasks : Top(k).pc \in {"tctx", "hstart", "enter"}}
 (*                   filter rejected it                                    *)
 (*   onceRan       : Once registrations whose body has started             *)
 (*   inside        : Sequential registrations whose body is running        *)
-(*   seqMax[<<r,g>>]: highest publish number of goroutine g for which the    *)
+(*   nspawn        : number of asynchronous dispatches so far; the n of an   *)
+(*                   async invocation is its dispatch number (the order in *)
+(*                   which the publishing goroutine handed events to the   *)
+(*                   handler - for a publish made from inside a handler    *)
+(*                   this is not the order of the PublishContext calls)    *)
+(*   seqMax[<<r,g>>]: highest dispatch number of goroutine g for which the   *)
 (*                   Async+Sequential registration r has started running   *)
 (*   waitNeeds[g]  : async invocations a Wait/Shutdown by g must outlast   *)
 (*   bad           : names of violated rules                               *)
 (***************************************************************************)
 GhostInit == [subDone |-> {}, remStarted |-> {}, remDone |-> {},
               must |-> <<>>, mustNot |-> <<>>, got |-> <<>>, rej |-> <<>>,
-              onceRan |-> {}, inside |-> {}, seqMax |-> <<>>, waitNeeds |-> <<>>, bad |-> {}]
+              onceRan |-> {}, inside |-> {}, seqMax |-> <<>>, nspawn |-> 0, waitNeeds |-> <<>>, bad |-> {}]
 
 Flag(cond, name) == IF cond THEN {name} ELSE {}
 
@@ -335,10 +340,11 @@ Dispatch(g) ==
        IF attr[r].async
        THEN /\ stack' = [h \in Gs \cup {tid} |->
                            IF h = tid
-                           THEN <<IF f.ctx = Bg THEN InvStart(NewInv(r, f.pub, TRUE, g, f.n, f.ctx))
-                                  ELSE [NewInv(r, f.pub, TRUE, g, f.n, f.ctx) EXCEPT !.pc = "tctx"]>>
+                           THEN <<IF f.ctx = Bg THEN InvStart(NewInv(r, f.pub, TRUE, g, gh.nspawn + 1, f.ctx))
+                                  ELSE [NewInv(r, f.pub, TRUE, g, gh.nspawn + 1, f.ctx) EXCEPT !.pc = "tctx"]>>
                            ELSE IF h = g THEN Append(Below(g), NextHandler(f)) ELSE stack[h]]
             /\ gh' = [gh EXCEPT !.got = [@ EXCEPT ![f.pub] = @ \cup {r}],
+                                !.nspawn = @ + 1,
                                 !.bad = @ \cup Flag(r \in gh.got[f.pub], "twice")
                                           \cup Flag(r \in gh.mustNot[f.pub], "mustNot")]
        ELSE /\ IF IsCancelled(f.ctx)
@@ -363,11 +369,11 @@ ObsHandlerStart(g) ==
   /\ SetTop(g, InvAfterHStart(Top(g)))
   /\ UNCHANGED <<cfg, reg, attr, fired, seqHolder, cancelled, closed, pubs, npub, gh>>
 
-\* Async invocations of r for earlier publishes by the same goroutine that have not started yet (C07 FIFO)
+\* Async invocations of r that the same goroutine dispatched earlier and that have not started yet (C07 FIFO)
 EarlierWaiting(g) ==
   {k \in WaitingTasks \ {g} : Top(k).reg = Top(g).reg /\ Top(k).pg = Top(g).pg /\ Top(k).n < Top(g).n}
 
-\* the invocation g starts after a later publish of the same goroutine was already processed by the
+\* the invocation g starts after an event that the same goroutine dispatched later was already processed by the
 \* same Async+Sequential registration
 FifoInversion(g) ==
   /\ attr[Top(g).reg].seq /\ Top(g).async
